@@ -102,6 +102,16 @@ def extra_family() -> list[dict]:
     return fam
 
 
+def operator_family() -> list[dict]:
+    """programs for the operator actions pause / unpause / restart"""
+    fam = []
+    fam.append(P("pausepar", [S("a", tasks=[T("a.1"), T("a.2", "terminal")]), S("b", tasks=[T("b.1"), T("b.2")])]))
+    fam.append(P("pausechain", [S("a", tasks=[T("a.1"), T("a.2")]), S("b", ["a"])]))
+    fam.append(P("restartjump", [S("a", tasks=[T("a.1", "jumpafter", 1, "c")]), S("b", ["a"]), S("c", ["b"])]))
+    fam.append(P("restartplain", [S("a"), S("b", ["a"]), S("c", ["a"])]))
+    return fam
+
+
 def control_family() -> list[dict]:
     """suspending tasks (signals), mutex pairs, deferred-choice groups"""
     fam = []
@@ -120,7 +130,8 @@ def control_family() -> list[dict]:
 
 
 def all_programs() -> list[dict]:
-    return [with_outputs(p) for p in core_family() + extra_family() + control_family() + synthetic_family()]
+    return [with_outputs(p) for p in core_family() + extra_family() + control_family() + synthetic_family()
+            + operator_family()]
 
 
 # ----------------------------------------------------------------------------------------------
